@@ -178,6 +178,14 @@ def cubicGenerator (w0 w1 w2 : GQ) : Mat :=
     | some a, some b => ((cubicBlock w0 w1 w2).getD a []).getD b 0
     | _, _ => 0
 
+/-- `QuarticFermionicSimulationGate.qubit_generator_matrix`: `w0|1001⟩⟨0110| + w1|1010⟩⟨0101| + w2|1100⟩⟨0011| + h.c.` -/
+def quarticGenerator (w0 w1 w2 : GQ) : Mat :=
+  (List.range 16).map fun r => (List.range 16).map fun k =>
+    if r = 9 ∧ k = 6 then w0 else if r = 6 ∧ k = 9 then GQ.conj w0
+    else if r = 10 ∧ k = 5 then w1 else if r = 5 ∧ k = 10 then GQ.conj w1
+    else if r = 12 ∧ k = 3 then w2 else if r = 3 ∧ k = 12 then GQ.conj w2
+    else 0
+
 end C14
 end Model
 end OFV
